@@ -26,11 +26,12 @@ theorem C23_isolation_partial (F : Facts) (prog : List (List Step)) (hg : NoGlob
     Isolated F prog :=
   isolated_of_noGlobalWrite F prog hg
 
-/-- if the default constructors shared nothing (the proposed repair), every
-    program would be isolated — no guard -/
-theorem C23_isolation_if_defaults_private (F : Facts) (hF : F.shared = []) (prog : List (List Step)) :
+/-- if the default constructors share nothing, every program in which no option installs an
+    object belonging to an Option value is isolated -/
+theorem C23_isolation_if_defaults_private (F : Facts) (hF : F.shared = []) (prog : List (List Step))
+    (hv : ∀ steps ∈ prog, valueFree steps = true) :
     Isolated F prog :=
-  isolated_of_noGlobalWrite F prog (noGlobalWrite_of_no_shared F hF prog)
+  isolated_of_noGlobalWrite F prog (noGlobalWrite_of_no_shared F hF prog hv)
 
 theorem lookup_mem_str {k : String} {v : List (Path × Bool)} : ∀ {l : Footprints}, l.lookup k = some v → (k, v) ∈ l
   | [], h => by simp at h
@@ -45,16 +46,31 @@ theorem lookup_mem_str {k : String} {v : List (Path × Bool)} : ∀ {l : Footpri
       rw [hk] at h
       exact List.mem_cons_of_mem _ (lookup_mem_str h)
 
+theorem redirOf_valueFree : ∀ (s : List Step) (r : Redir), valueFree s = true → RedirValueFree r →
+    RedirValueFree (redirOf r s)
+  | [], _, _, hr => hr
+  | .write _ _ :: rest, r, hs, hr => by
+    simp only [valueFree] at hs
+    exact redirOf_valueFree rest r hs hr
+  | .redirect p t :: rest, r, hs, hr => by
+    simp only [valueFree, Bool.and_eq_true, Bool.not_eq_true'] at hs
+    apply redirOf_valueFree rest _ hs.2
+    intro e he
+    rcases List.mem_cons.mp he with rfl | he
+    · exact hs.1
+    · exact hr e he
+
 theorem uses_no_global (F : Facts) (opts : Footprints) (k : Nat) : ∀ (uses : List OptUse),
-    (∀ u ∈ uses, Conforms opts u ∧ u.name ∉ sharedWriters F opts ∧ u.name ∉ sharedReplacers F opts) →
-    ∀ (r : Redir), ∀ c ∈ cellsWritten F k r (flatten uses), isGlob c.1 = false
-  | [], _, r, c, h => by simp [flatten, cellsWritten] at h
-  | u :: rest, hall, r, c, h => by
+    (∀ u ∈ uses, Conforms opts u ∧ u.name ∉ sharedWriters F opts ∧ u.name ∉ sharedReplacers F opts ∧
+      valueFree u.steps = true) →
+    ∀ (r : Redir), RedirValueFree r → ∀ c ∈ cellsWritten F k r (flatten uses), isGlob c.1 = false
+  | [], _, r, _, c, h => by simp [flatten, cellsWritten] at h
+  | u :: rest, hall, r, hr, c, h => by
     have hu := hall u List.mem_cons_self
     have hflat : flatten (u :: rest) = u.steps ++ flatten rest := by simp [flatten]
     rw [hflat, cellsWritten_append, List.mem_append] at h
     rcases h with h | h
-    · apply use_no_global F opts k u hu.1 _ r c h
+    · apply use_no_global F opts k u hu.1 _ hu.2.2.2 r hr c h
       intro fp hfp
       have hm := lookup_mem_str hfp
       constructor
@@ -67,17 +83,19 @@ theorem uses_no_global (F : Facts) (opts : Footprints) (k : Nat) : ∀ (uses : L
       · cases hw : replacesShared F fp with
         | false => rfl
         | true =>
-          exfalso; apply hu.2.2
+          exfalso; apply hu.2.2.1
           simp only [sharedReplacers, List.mem_map, List.mem_filter]
           exact ⟨(u.name, fp), ⟨hm, hw⟩, rfl⟩
-    · exact uses_no_global F opts k rest (fun x hx => hall x (List.mem_cons_of_mem _ hx)) _ c h
+    · exact uses_no_global F opts k rest (fun x hx => hall x (List.mem_cons_of_mem _ hx)) _
+        (redirOf_valueFree u.steps r hu.2.2.2 hr) c h
 
 /-- ISOLATION under the static guard: any program written with options whose
     generated footprint neither lies inside nor replaces a shared object is
     isolated (uses must stay inside the generated footprints) -/
 theorem C23_isolation_by_option_names_partial (F : Facts) (opts : Footprints) (prog : List (List OptUse))
     (h : ∀ uses ∈ prog, ∀ u ∈ uses,
-      Conforms opts u ∧ u.name ∉ sharedWriters F opts ∧ u.name ∉ sharedReplacers F opts) :
+      Conforms opts u ∧ u.name ∉ sharedWriters F opts ∧ u.name ∉ sharedReplacers F opts ∧
+      valueFree u.steps = true) :
     Isolated F (prog.map flatten) := by
   apply isolated_of_noGlobalWrite
   intro k steps hk c hc
@@ -88,7 +106,7 @@ theorem C23_isolation_by_option_names_partial (F : Facts) (opts : Footprints) (p
     rw [hu] at hk
     simp only [Option.map_some, Option.some.injEq] at hk
     subst hk
-    exact uses_no_global F opts k uses (h uses (List.mem_of_getElem? hu)) [] c hc
+    exact uses_no_global F opts k uses (h uses (List.mem_of_getElem? hu)) [] (by intro e he; simp at he) c hc
 
 /-- the alias facts of the current source: the default constructors share
     NOTHING between clients (evaluation of newConfig() twice + go/ast), so no
@@ -101,19 +119,64 @@ theorem C23_defaults_private :
     Gen.Config.options.length = 35 := by
   decide +kernel
 
-/-- ISOLATION, full strength, for the current source: every program — any
-    number of clients, any options in any order with any values, caller-supplied
-    objects — leaves every client reading, at every configuration path, exactly
-    what its own options give on pristine defaults -/
-theorem C23_isolation (prog : List (List Step)) : Isolated facts prog :=
-  isolated_of_noGlobalWrite facts prog (noGlobalWrite_of_no_shared facts C23_defaults_private.1 prog)
+/-- no option constructor of config.go allocates outside the closure it returns: every
+    application of an Option value installs objects of its own (go/ast over all 35 constructors) -/
+theorem C23_no_option_captures_an_allocation : Gen.Config.captured = [] := by decide
 
-theorem resolve_redirected (F : Facts) (k : Nat) (r : Redir) (p : Path)
+/-- ISOLATION for the current source, at the level of steps: every program in which no step
+    installs an object of an Option value — any number of clients, any assignments in any order
+    with any values, caller-supplied objects — leaves every client reading, at every
+    configuration path, exactly what its own options give on pristine defaults -/
+theorem C23_isolation (prog : List (List Step)) (hv : ∀ steps ∈ prog, valueFree steps = true) :
+    Isolated facts prog :=
+  isolated_of_noGlobalWrite facts prog (noGlobalWrite_of_no_shared facts C23_defaults_private.1 prog hv)
+
+/-- ISOLATION, full strength, at the level of Option VALUES: every program of applications —
+    any Option value may be applied to any number of clients (a slice of base options), any
+    client may get further applications — is isolated: what an application installs is decided
+    by the generated allocation facts, and they say "its own objects", for all 35 options -/
+theorem C23_isolation_option_values (prog : List (List App))
+    (hraw : ∀ apps ∈ prog, ∀ a ∈ apps, valueFree a.steps = true) :
+    Isolated facts (prog.map fun apps => apps.flatMap (realise Gen.Config.captured)) := by
+  apply C23_isolation
+  intro steps hs
+  obtain ⟨apps, happs, rfl⟩ := List.mem_map.mp hs
+  have key : ∀ (l : List App), (∀ a ∈ l, valueFree a.steps = true) →
+      valueFree (l.flatMap (realise Gen.Config.captured)) = true := by
+    intro l
+    induction l with
+    | nil => intro _; rfl
+    | cons a rest ih =>
+      intro h
+      simp only [List.flatMap_cons, valueFree_append, Bool.and_eq_true]
+      refine ⟨?_, ih (fun x hx => h x (List.mem_cons_of_mem _ hx))⟩
+      rw [C23_no_option_captures_an_allocation, realise_nil]
+      exact h a List.mem_cons_self
+  exact key apps (hraw apps happs)
+
+/-- the model is not blind to it: were `AuthUsername` to build its token when the Option value
+    is made (facts `[("AuthUsername", [session.UserIdentityToken])]`), one value applied to two
+    clients followed by `AuthPolicyID` on the second changes what the first reads -/
+theorem C23_model_detects_captured_allocation :
+    let capt : List (String × List Path) := [("AuthUsername", [["session", "UserIdentityToken"]])]
+    let tok : Path := ["session", "UserIdentityToken"]
+    let pid : Path := ["session", "UserIdentityToken", "PolicyID"]
+    let base : App := ⟨"AuthUsername", 7, [.redirect tok .fresh, .write pid ""]⟩
+    let prog : List (List App) := [[base], [base, ⟨"AuthPolicyID", 8, [.write pid "p2"]⟩]]
+    let steps := prog.map fun apps => apps.flatMap (realise capt)
+    effective facts pristine (runClients facts 0 emptyHeap steps) 0 (steps.getD 0 []) pid = "p2" ∧
+    effective facts pristine (runSteps facts 0 emptyHeap [] (steps.getD 0 [])).1 0 (steps.getD 0 []) pid = "" := by
+  decide +kernel
+
+theorem resolve_redirected (F : Facts) (k : Nat) (r : Redir) (p : Path) (hr : RedirValueFree r)
     (h : ∃ e ∈ r, strictPrefix e.1 p = true) : isGlob (resolve F k r p).1 = false := by
   unfold resolve
   split
   · rfl
   · rfl
+  · rename_i q w hq
+    have := hr _ (List.mem_of_find?_eq_some hq)
+    simp [isValueTarget] at this
   · rename_i hnone
     obtain ⟨e, he, hp⟩ := h
     have := List.find?_eq_none.mp hnone e he
@@ -122,28 +185,39 @@ theorem resolve_redirected (F : Facts) (k : Nat) (r : Redir) (p : Path)
 /-- `Dialer(d)` with an object of the caller's own: everything assigned below
     `cfg.dialer` afterwards lands in the caller's object, never in the package default -/
 theorem C23_dialer_option_is_private (F : Facts) (k u : Nat) (ws : List Step)
-    (hws : ∀ w ∈ ws, strictPrefix ["dialer"] (stepPath w) = true) :
-    ∀ c ∈ cellsWritten F k [] (.redirect ["dialer"] (some u) :: ws), isGlob c.1 = false := by
+    (hws : ∀ w ∈ ws, strictPrefix ["dialer"] (stepPath w) = true) (hvf : valueFree ws = true) :
+    ∀ c ∈ cellsWritten F k [] (.redirect ["dialer"] (.user u) :: ws), isGlob c.1 = false := by
   have key : ∀ (s : List Step) (r : Redir), (∀ w ∈ s, strictPrefix ["dialer"] (stepPath w) = true) →
-      (["dialer"], some u) ∈ r → ∀ c ∈ cellsWritten F k r s, isGlob c.1 = false := by
+      valueFree s = true → RedirValueFree r →
+      (["dialer"], Target.user u) ∈ r → ∀ c ∈ cellsWritten F k r s, isGlob c.1 = false := by
     intro s
     induction s with
-    | nil => intro r _ _ c h; simp [cellsWritten] at h
+    | nil => intro r _ _ _ _ c h; simp [cellsWritten] at h
     | cons st rest ih =>
-      intro r hall hr c h
-      have hrest := fun r' hr' => ih r' (fun x hx => hall x (List.mem_cons_of_mem _ hx)) hr'
+      intro r hall hs hrv hr c h
       cases st with
       | redirect p t =>
+        simp only [valueFree, Bool.and_eq_true, Bool.not_eq_true'] at hs
         simp only [cellsWritten] at h
-        exact hrest _ (List.mem_cons_of_mem _ hr) c h
+        refine ih _ (fun x hx => hall x (List.mem_cons_of_mem _ hx)) hs.2 ?_ (List.mem_cons_of_mem _ hr) c h
+        intro e he
+        rcases List.mem_cons.mp he with rfl | he
+        · exact hs.1
+        · exact hrv e he
       | write p v =>
+        simp only [valueFree] at hs
         simp only [cellsWritten, List.mem_cons] at h
         rcases h with rfl | h
-        · exact resolve_redirected F k r p ⟨_, hr, by simpa [stepPath] using hall (.write p v) List.mem_cons_self⟩
-        · exact hrest r hr c h
+        · exact resolve_redirected F k r p hrv
+            ⟨_, hr, by simpa [stepPath] using hall (.write p v) List.mem_cons_self⟩
+        · exact ih r (fun x hx => hall x (List.mem_cons_of_mem _ hx)) hs hrv hr c h
   intro c hc
   simp only [cellsWritten] at hc
-  exact key ws _ hws List.mem_cons_self c hc
+  refine key ws _ hws hvf ?_ List.mem_cons_self c hc
+  intro e he
+  simp only [List.mem_singleton] at he
+  subst he
+  rfl
 
 /-! ### the former finding (C23.shared-default-client-ack, fixed) as a regression -/
 
@@ -189,7 +263,7 @@ theorem C23_model_detects_sharing :
 /-! ### non-vacuity: a program the partial theorem covers -/
 
 example : NoGlobalWrite facts
-    [[.write ["sechan", "RequestTimeout"] "5", .redirect ["dialer"] (some 0),
+    [[.write ["sechan", "RequestTimeout"] "5", .redirect ["dialer"] (.user 0),
       .write ["dialer", "ClientACK", "MaxMessageSize"] "1"], [.write ["session", "SessionName"] "x"]] := by
   intro k steps hk c hc
   match k, hk with
